@@ -584,8 +584,8 @@ PROPS = {
     },
     "C04": {
         "lean_modules": ["Dbg.Props.C04"],
-        "theorems": ["Pipeline.C04_sharded_eq_direct", "Compress.sharded_result_ginv", "Pipeline.sigmasOK_identity", "Compress.sharded_eq_direct_abstract", "Compress.pgraph_recompress", "Compress.shard_sandwich", "Compress.pgraph_flatten", "Compress.PGraph.ginv", "Pipeline.C04_shard_tables", "Pipeline.C04_shard_filter", "Pipeline.shardCfg_default", "Filter.read_observations", "Filter.table_restrict", "Pipeline.C04_link_pieces", "Pipeline.C04_link_shard", "Pipeline.C04_link_recompress"],
-        "partial": ["the PARTITION claim is proved end to end (C04_sharded_eq_direct: neither pipeline panics and every node of either graph has exactly the canonical k-mers of some node of the other, for every read set, K>=4, 1<=P<=K, default or injective permutation, stranded or not, every threshold, with or without sharded pruning, every hash order); equality of payload totals per node and of adjacencies is still decided by evaluating the executable predicate on the two real pipelines"],
+        "theorems": ["Pipeline.C04_sharded_eq_direct", "Pipeline.C04_payloads_agree", "Compress.compressGraph_kdata", "Compress.sharded_result_ginv", "Pipeline.sigmasOK_identity", "Compress.sharded_eq_direct_abstract", "Compress.pgraph_recompress", "Compress.shard_sandwich", "Compress.pgraph_flatten", "Compress.PGraph.ginv", "Pipeline.C04_shard_tables", "Pipeline.C04_shard_filter", "Pipeline.shardCfg_default", "Filter.read_observations", "Filter.table_restrict", "Pipeline.C04_link_pieces", "Pipeline.C04_link_shard", "Pipeline.C04_link_recompress"],
+        "partial": ["PARTITION and PAYLOAD TOTALS are proved end to end (C04_sharded_eq_direct: neither pipeline panics and every node of either graph has exactly the canonical k-mers of some node of the other; C04_payloads_agree: nodes with the same k-mers carry the same saturated count total) for every read set, K>=4, 1<=P<=K, default or injective permutation, stranded or not, every threshold, with or without sharded pruning, every hash order; equality of the adjacencies of the two final graphs is still decided by evaluating the executable predicate on the two real pipelines (both graphs are proved to satisfy GInv with complete find_link)"],
         "n_quick": 1500, "n_thorough": 60000,
         "nontrivial": _c04_nontrivial, "tags": _c04_tags, "shrink": _reads_shrink(8),
         "rule": "requests `sharded K P perm stranded thr prune reads`: both real pipelines on the same read set from the structured generator; (K,P) in "
@@ -598,8 +598,8 @@ PROPS = {
     },
     "C06": {
         "lean_modules": ["Dbg.Props.C06", "Dbg.Props.C06b"],
-        "theorems": ["Pipeline.C06_direct_rc_invariant", "Pipeline.C06_sharded_rc_invariant", "Compress.krel_contentW", "Compress.C06_filter_rc_invariant", "Compress.C06_tables_agree", "Compress.C06_graph_rc_invariant", "Compress.C06_stranded_separation", "Compress.linkOf_congr", "Compress.C06_key_is_min", "Compress.C06_key_rc_invariant", "Compress.C06_flip_opposite", "Compress.C06_stranded_no_canon", "Compress.C06_unstranded_canon"],
-        "partial": ["the PARTITION of every pipeline variant (one-pass with any hash orders: C06_direct_rc_invariant; sharded / re-compressed, with or without sharded pruning: C06_sharded_rc_invariant) is proved invariant under reverse-complementing any subset of reads; payload totals and adjacencies of the finished graphs are executable predicates on the crate's outputs for masked reverse-complemented read sets"],
+        "theorems": ["Pipeline.C06_direct_rc_invariant", "Pipeline.C06_direct_payload_rc_invariant", "Pipeline.C06_sharded_rc_invariant", "Compress.krel_contentW", "Compress.C06_filter_rc_invariant", "Compress.C06_tables_agree", "Compress.C06_graph_rc_invariant", "Compress.C06_stranded_separation", "Compress.linkOf_congr", "Compress.C06_key_is_min", "Compress.C06_key_rc_invariant", "Compress.C06_flip_opposite", "Compress.C06_stranded_no_canon", "Compress.C06_unstranded_canon"],
+        "partial": ["the PARTITION of every pipeline variant (one-pass with any hash orders: C06_direct_rc_invariant; sharded / re-compressed, with or without sharded pruning: C06_sharded_rc_invariant) and the PAYLOADS of the one-pass pipeline (C06_direct_payload_rc_invariant; for the sharded pipeline via C04_payloads_agree) are proved invariant under reverse-complementing any subset of reads; adjacencies of the finished graphs are executable predicates on the crate's outputs for masked reverse-complemented read sets"],
         "n_quick": 1200, "n_thorough": 50000,
         "nontrivial": lambda toks, impl: impl != "panic" and toks[5] != "-" and toks[6].count(",") >= 1, "tags": _c06_tags, "shrink": _reads_shrink(6),
         "rule": "requests `rcsym K stranded thr mask reads`: the crate builds the k-mer table and the direct, sharded and re-compressed graphs for the "
